@@ -454,7 +454,7 @@ func Dot(a, b Vector) float64 {
 	}
 	var sum float64
 	for i := 0; i < la; i++ {
-		sum += a.At(i, 0) * b.At(i, 0)
+		sum += a.AtVec(i) * b.AtVec(i)
 	}
 	return sum
 }
